@@ -480,7 +480,9 @@ where
         if line_number != self.current_line.get() {
             self.sink.set_current_line(line_number);
         }
-        let ignore_lf = self.ignore_lf.take();
+        // A parse error is not a token of the standard: it must not use up the
+        // "ignore the next token if it is a line feed" flag.
+        let ignore_lf = !matches!(token, tokenizer::ParseError(_)) && self.ignore_lf.take();
 
         // Handle `ParseError` and `DoctypeToken`; convert everything else to the local `Token` type.
         let token = match token {
